@@ -2,7 +2,7 @@
 """Self-test of check C12: apply one realistic seeded break by monkeypatching (never editing /repo), run a part
 of the check in-process and print the witness keys.  Every break is applied on top of the two proposed fixes, so
 that only the seeded mechanism can fire.
-Usage: PYTHONHASHSEED=0 /venv/bin/python seeded/c12_breaks.py [name ...]
+Usage: PYTHONHASHSEED=0 /venv/bin/python tools/selftest_c12.py [name ...]
 """
 
 from __future__ import annotations
@@ -20,7 +20,8 @@ import checks.c12_cache as chk  # noqa: E402
 
 
 def fix_mutate_fallback():
-    """Proposed patch A: the 'no call on SUT -> restore backup and insert' path reports its insertion."""
+    """Proposed patch A': in the 'no call on SUT -> restore backup and insert' path the result of the insertion must
+    not overwrite a change made by the chop that happened *before* the backup was taken (regression of 10876b2)."""
     import pynguin.configuration as config
     import pynguin.ga.operators.mutation as mu
 
@@ -34,6 +35,7 @@ def fix_mutate_fallback():
             if last is not None:
                 chromosome.test_case.remove_statements_batch(set(range(last + 1, chromosome.test_case.size())))
                 changed = True
+        chopped = changed  # patched
         backup = chromosome.test_case.clone()
         if randomness.next_float() <= sa.test_delete_probability and chromosome._mutation_delete():
             changed = True
@@ -44,8 +46,8 @@ def fix_mutate_fallback():
         test_factory = chromosome.test_factory
         if not test_factory.has_call_on_sut(chromosome.test_case):
             chromosome.test_case = backup
-            if chromosome._mutation_insert():  # patched
-                changed = True
+            inserted = chromosome._mutation_insert()  # patched
+            changed = chopped or inserted  # patched
         if changed:
             chromosome.changed = True
             chromosome.register_mutation()
@@ -282,8 +284,7 @@ def brk_mutate_chop_forgets_changed():
             changed = True
         if not chromosome.test_factory.has_call_on_sut(chromosome.test_case):
             chromosome.test_case = backup
-            if chromosome._mutation_insert():
-                changed = True
+            changed = chromosome._mutation_insert()
         if changed:
             chromosome.changed = True
             chromosome.register_mutation()
